@@ -44,7 +44,7 @@ def run_job(job):
             return runner.run([q], cwd=w, home=home, trace=trace)
 
         for qi in range(job["queries"]):
-            sel = ["path"] + rng.sample(["name", "size", "ext", "modified", "uid", "hardlinks"], rng.randint(0, 3))
+            sel = ["path"] + rng.sample(["name", "size", "ext", "modified", "uid", "hardlinks", "-size", "-uid", "size * 2", "upper(name)", "-hardlinks"], rng.randint(0, 3))
             where = rng.choice(WHERES)
             ob, exprs, asc = ordering.gen_keys(rng, sel)
             kinds = [ordering.key_kind(e) for e in exprs]
